@@ -138,11 +138,11 @@ Theorem C05_lower_measure : forall s id mreg a ix l k o,
 Proof. exact lower_measure. Qed.
 
 (* ---- 3. frame *)
-Theorem C05_lower_frame : forall fd s st c st',
+Theorem C05_lower_frame : forall fd s st c st', plain s = true ->
   lower_stmt fd s st = Ok (c, st') -> forall k, In k (sws c) -> nth_error (l_act st) k = Some false.
 Proof. exact lower_frame. Qed.
 
-Theorem C05_live_values_preserved : forall fd s st c st' m m',
+Theorem C05_live_values_preserved : forall fd s st c st' m m', plain s = true ->
   lower_stmt fd s st = Ok (c, st') -> lv_active st -> sx c m m' ->
   forall v r, In (v, r) (l_lv st) -> m_reg m' (Rg BR r) = m_reg m (Rg BR r).
 Proof. exact live_values_preserved. Qed.
@@ -166,7 +166,7 @@ Definition ex_p : block :=
        SFlush;
        SLoopUntil 1 3 (blk [SNewQubit 1; SGate GX 1; SMeasFut 1 false 1 (IxC 1)]) (VFut 1 (IxC 1)) 0
                   (blk [SFutAdd 1 (IxC 0) (AInt 10) None]);
-       SLoop true 2 0 4 2 (blk [SIf CLt true (VLoop 2) (VFut 1 (IxC 0)) (blk [SRot AZ 0 3 2])]);
+       SLoop true 2 None 0 4 2 (blk [SIf CLt true (VLoop 2) (VFut 1 (IxC 0)) (blk [SRot AZ 0 3 2])]);
        SMeasNew 0 false 2; SFlush].
 
 Example C05_compile_correct_instance :
